@@ -357,3 +357,35 @@ def keyboard_roles(prog, names):
     if len(set(v[0] for v in roles.values())) != 4:
         raise KeyError("anchor: the key matrices are not distinct pieces of state: %s" % roles)
     return roles
+
+
+def api_mod_set(prog, cg, fa, api, cache={}):
+    """{(adt, field): some function} for every field of a local type that a function reachable from the public method
+    Emulator::<api> stores to, borrows mutably or replaces.  Raises KeyError when the method does not exist."""
+    if "written" not in cache or cache.get("prog") is not prog:
+        written = {}
+        for (adt, field), sites in list(fa.stores.items()) + list(fa.mutrefs.items()):
+            for s_ in sites:
+                written.setdefault(strip_closure(s_.fn.path), set()).add((adt, field))
+        cache["written"], cache["prog"] = written, prog
+    root = prog.fn_path("rustzx_core", "Emulator::<H>::" + api)
+    reach = set(strip_closure(p) for p in cg.reachable([root]) if p in prog.fns and prog.fns[p].local)
+    out = {}
+    for p in reach:
+        for af in cache["written"].get(p, ()):
+            a = prog.adt(af[0])
+            if a and a.get("local"):
+                out.setdefault(af, p)
+    return out
+
+
+def check_mod_set(chk, prog, cg, fa, api, allowed, key, what, ignore=lambda adt, field: False):
+    try:
+        mods = api_mod_set(prog, cg, fa, api)
+    except KeyError:
+        chk.undecided_(key + "/anchor", "Emulator::%s not found" % api)
+        return False
+    extra = dict((af, p) for af, p in mods.items() if af not in allowed and not ignore(*af))
+    chk.check(not extra, key, "%s changes more than %s: %s" % (
+        api, what, sorted("%s.%s (in %s)" % (a.split("::")[-1], f, p.split("::")[-1]) for (a, f), p in extra.items())))
+    return True
